@@ -11,13 +11,31 @@ def segsStr (segs : List Seg) : String :=
 def tail (s : State) : String :=
   s!"nread={s.nread} lg={s.largest} av={available s} rd={if isReadable s then 1 else 0} segs={segsStr s.segs}"
 
-def step (s : State) (op : List String) : State × String :=
+/-- `recv` through the single-pass `ins` AND through the loop transliteration `recvLoop`; the observation
+printed (and compared with the real code) is the one of `ins`; a disagreement of the transliteration is
+appended so that the line differs from the implementation's and is reported. -/
+def recvBoth (s : State) (o : Nat) (d : List UInt8) : State × String :=
+  let (s', n) := recv s o d
+  let base := s!"ret={n} {tail s'}"
+  match recvViaLoop s o d with
+  | .ok s2 n2 =>
+    if n2 == n && s2.nread == s'.nread && s2.largest == s'.largest && s2.segs == s'.segs then (s', base)
+    else (s', s!"{base} LOOP-DISAGREES ret={n2} {tail s2}")
+  | .panic site => (s', s!"{base} LOOP-PANIC {site}")
+  | .fuel => (s', s!"{base} LOOP-OUT-OF-FUEL")
+
+/-- `recv` through the loop transliteration only. -/
+def recvLoopOnly (s : State) (o : Nat) (d : List UInt8) : State × String :=
+  match recvViaLoop s o d with
+  | .ok s2 n2 => (s2, s!"ret={n2} {tail s2}")
+  | .panic site => (s, s!"PANIC {site}")
+  | .fuel => (s, "OUT-OF-FUEL")
+
+def stepWith (rcv : State → Nat → List UInt8 → State × String) (s : State) (op : List String) : State × String :=
   match op with
   | ["recv", off, hex] =>
     match off.toNat?, parseHex hex with
-    | some o, some d =>
-      let (s', n) := recv s o d
-      (s', s!"ret={n} {tail s'}")
+    | some o, some d => rcv s o d
     | _, _ => (s, "BAD recv args")
   | ["read", cap] =>
     match cap.toNat? with
@@ -31,8 +49,20 @@ def step (s : State) (op : List String) : State × String :=
     | (s', none) => (s', s!"out=none {tail s'}")
   | _ => (s, "BAD op")
 
-def model : Model State := { init := init, step := exact step }
+/-- `recv` through the single-pass `ins` only (the model the theorems are about). -/
+def recvIns (s : State) (o : Nat) (d : List UInt8) : State × String :=
+  let (s', n) := recv s o d
+  (s', s!"ret={n} {tail s'}")
 
-def entries : List (String × IO UInt32) := [("C08", runModel model)]
+def model : Model State := { init := init, step := exact (stepWith recvIns) }
+def modelBoth : Model State := { init := init, step := exact (stepWith recvBoth) }
+def modelLoop : Model State := { init := init, step := exact (stepWith recvLoopOnly) }
+
+/-- `C08`: single pass vs real code (large random run).  `C08x` (exhaustive small scope) and `C08loop`
+(random) run BOTH the single pass and the loop transliteration against the real code.
+`C08looponly`: the transliteration alone (manual use). -/
+def entries : List (String × IO UInt32) :=
+  [("C08", runModel model), ("C08x", runModel modelBoth), ("C08loop", runModel modelBoth),
+   ("C08looponly", runModel modelLoop)]
 
 end GmQuic.Drv.C08
